@@ -208,3 +208,29 @@ type EmbHidDeep struct {
 	EmbHidVal
 	W int
 }
+
+// Embedded pointers to structs whose first member is a string / a slice / a small scalar (a stray
+// pointer-sized store at the embedded struct's address lands on the header, or runs past a struct
+// smaller than a pointer).
+type EPStrFirst struct {
+	Name string
+	Age  int
+	Tags []string
+}
+type EPSliceFirst struct {
+	Tags []string
+	Age  int
+}
+type EPTiny struct{ Flag int8 }
+type EPOutStr struct {
+	*EPStrFirst
+	Z int
+}
+type EPOutSlice struct {
+	A int
+	*EPSliceFirst
+}
+type EPOutTiny struct {
+	*EPTiny
+	G [15]byte `json:"-"`
+}
